@@ -6,7 +6,20 @@ claim("C20",
       "trusted: TLC, the JSON encoder of observations, CPython's random module structure (draws reach the generator through _randbelow); elements are hashable tuples",
       T_TLC, "DESIGN.md 4 C20")
 
+claim("C01",
+      "TLC checks count/slot/range/call-shape invariants of the stub-matching model for every handshake-consistent jds (N=3..4, 8 motif configurations incl. multi-orbit custom motifs) and every shuffle permutation; the real generators (fast, network, custom; direct and via GCMAlgorithmMain) are run through EVERY leaf of their RNG decision tree on the same 489-input family plus seeded runs to N=120, and TLC judges each recorded callback log / result against the C01 clauses",
+      "trusted: TLC, the recording build callbacks (closures of the harness), the JSON encoder; inputs are handshake-consistent by construction",
+      T_TLC, "DESIGN.md 4 C01")
+claim("C02",
+      "Same model and executions as C01; TLC judges column parallelism, pair-ness, 'entries sharing an id = the edges one callback returned', id uniqueness and per-position names on every recorded execution; the pinned len(es)==2 branch is kept as a deviation action whose MC run must violate C02_ColumnsParallel",
+      "trusted: as C01; naming callbacks return distinct per-edge names so positional mix-ups are visible",
+      T_TLC, "DESIGN.md 4 C02")
+claim("C03",
+      "Exact: the real generator is executed on every leaf of its RNG decision tree with exact rational leaf weights; TLC judges that the resulting distribution over stub arrangements is exactly uniform on the n_k!/prod jds! arrangements, jointly over topologies, for the whole MC family and all multiplicity patterns up to 6 stubs; the model side (equal fibres of Shuffle, Fisher-Yates leaves <-> permutations bijection) is model-checked",
+      "trusted: CPython random module structure (draws via _randbelow), TLC; larger sequences rest on the symmetry argument (not decided by enumeration)",
+      "TLA+ spec + TLC; exhaustive RNG decision-tree enumeration of the implementation judged by TLC", "DESIGN.md 4 C03")
+
 _pending = "no check built yet in this round; planned (DESIGN.md 4)"
-for p in ["C01","C02","C03","C04","C05","C06","C07","C08","C09","C10","C11","C12","C13","C14","C15","C16","C17","C18"]:
+for p in ["C04","C05","C06","C07","C08","C09","C10","C11","C12","C13","C14","C15","C16","C17","C18"]:
     NOT_APPLICABLE[p] = _pending
 NOT_APPLICABLE["C19"] = "numerical accuracy of four stateless real-valued functions (exp, zeta, polylog): no state, no transitions, TLC has neither reals nor transcendental functions (DESIGN.md 5)"
